@@ -19,4 +19,5 @@ let () =
   | _ :: "equiv-spec" :: path :: _ -> D_equiv.run_spec path
   | _ :: "readers" :: path :: _ -> D_readers.run_readers path
   | _ :: "writers" :: path :: _ -> D_readers.run_writers path
+  | _ :: ("satobj" | "dimacs" | "reply" | "pipe" as m) :: path :: _ -> D_satobj.run m path argv
   | _ -> prerr_endline "usage: driver <mode> <cases-file> [--thr N]"; exit 2
